@@ -134,8 +134,13 @@ class Core:
         second = want_len[0] if len(set(want_len)) == 1 else None
         require(shp[0] == n and (shp[1] == second) and tuple(shp[2:]) == tuple(flat.shape[1:]), "shape disagrees",
                 got=shp, want=(n, second) + tuple(flat.shape[1:]), **ctx)
-        # dtype is not among C06's observers (C05 checks it for reads): appending an equal-length RaggedArray built
-        # from nested lists legitimately leaves an object-typed buffer holding the right values.
+        # the flat data stay a numeric array: a buffer of python objects (dtype object) holding the right values computes
+        # the next operation with python arithmetic instead of the element type's, cannot be saved, and reports
+        # a.dtype == object. (The exact numeric type after mixed-type writes is not compared - numpy's own promotion and
+        # casting rules differ between a block write and a row rebinding.)
+        require(np.asarray(a._data).dtype != object and np.asarray(got_flat).dtype != object,
+                "the flat data became an array of python objects", dtype=str(np.asarray(a._data).dtype),
+                model=str(flat.dtype), **ctx)
         require(a.max() == flat.max() and a.min() == flat.min(), "min/max disagree", **ctx)
         require(bool(a.any()) == bool(flat.any()) and bool(a.all()) == bool(flat.all()), "any/all disagree", **ctx)
         b = ra.RaggedArray([r.copy() for r in m])
